@@ -1267,7 +1267,6 @@ func c04FlagKind(w *World, r *Report) {
 	}
 }
 
-
 // overlayFn: the key-by-key overlay (coalesceTablesFullKey on the reference tree). If the function of
 // that name is gone, it is found by role: the function of pkg/chart/v2/util that calls itself, takes two
 // values tables and deletes a key from one of them. (A free function turned into a method of a small
